@@ -61,6 +61,10 @@ func StoreSimConfig(prop string, r *Rand, tier string) map[string]int64 {
 		}
 	case "C08":
 		c["w_block"], c["w_reorg"], c["w_restart"], c["w_check"], c["w_fault"] = 70, int64(r.Range(0, 15)), int64(r.Range(0, 10)), 0, 0
+		if r.Bool(30) {
+			// what is served after a failed and retried block must verify as well (the atomicity itself is C07's)
+			c["w_fault"] = int64(r.Range(3, 12))
+		}
 		c["heavy"] = 1
 		c["proofs_only"] = 1 // C08 reports proof / leaf / root oracles only (twin equality is C04's)
 		c["kind"] = int64(r.Intn(2)) // the two stores that own trees
@@ -206,6 +210,11 @@ func RunStoreSim(prop string, tr *Trace, sc *Script, rec *Recorder, scratch stri
 			rec.Step("C")
 		case "faultblock":
 			if v := w.faultBlock(op, fail); v != nil {
+				if prop == "C08" && v.Oracle != "reference" {
+					// atomicity / retry are C07's oracles: C08 only reports proofs, leaves and roots
+					rec.Stats.Inc("other_property_oracle_fired_c07")
+					return nil
+				}
 				return v
 			}
 		default:
